@@ -4,7 +4,7 @@ CONSTANTS
   H0 = 0
   MaxIdx = 4
   Procs = {"p1", "p2"}
-  MaxPuts = 5
+  MaxPuts = 4
   Blocking = FALSE
   WithExternal = FALSE
   WithDiscard = TRUE
